@@ -45,8 +45,8 @@ def run(ctx):
 
     # ---- C16.2 -----------------------------------------------------------------------------------------
     check_zero_is_a_value(ctx, 'C16.2', 'a log whose first timestamp is 0.000, a message at relative time 0.0, a gap of 0.0',
-                          lambda f: f.module.name in ('core.wl.message', 'core.output.output', 'backends.libwayland_debug_output.parse', 'core.wl.object')
-                          or (f.module.name == 'frontends.tui.controller' and f.name != '_get_matching'), floor=20)
+                          lambda f: f.module.name in ('core.wl.message', 'core.output.output', 'backends.libwayland_debug_output.parse', 'core.wl.object', 'frontends.tui.controller'),
+                          floor=20, kinds=('float',))       # times are floats; the listing's cap (an int whose 0 means "no cap" by definition) is not a time
     ipaths = paths_of(repo, msg_init)
     probs = check_reach(ipaths, lambda e: e.kind == 'store' and e.target == 'Message.base_time',
                         lambda a: ('unset', True) if a.text == 'Message.base_time is None' else None, lambda F: F['unset'], universe=['unset'])
